@@ -82,8 +82,67 @@ def _fmtstr_result(a, st):
 
 fmtstr_plain = Contract(M + "fmtstr", "C17", ["string"], shapes=[],
                         requires=lambda a: True if isinstance(a.string, str) and "\x1b[" not in a.string else PLAIN(_as_str_term(a.string)),
-                        result=_fmtstr_result, doc="ASSUMED: fmtstr(s) == FmtStr(Chunk(s)) for s free of ESC[")
-fmtstr_plain.assumed = True
+                        result=_fmtstr_result, doc="callee form: fmtstr(s) == FmtStr(Chunk(s)) for s free of ESC[; VERIFIED below (fmtstr#plain)")
+
+# ---------------------------------------------------------------------------------------------
+# The callee form above is no longer assumed: the real bodies of fmtstr (no formatting arguments) and of
+# FmtStr.from_str are verified against it for every string that is free of "ESC[".
+#   PLAIN(s) is *defined* as: "\x1b[" does not occur in s   (stated as a definitional precondition here; elsewhere
+#   PLAIN stays uninterpreted and only the lemma  PLAIN(blanks ++ y) == PLAIN(y)  is used - validated by
+#   exhaustive evaluation in props/C06.py, since neither solver decides it).
+# ---------------------------------------------------------------------------------------------
+ESC_CSI = T.str_term("\x1b[")
+
+
+def _one_plain_run(s):
+    return T.FmtS.mkfmt(z3.Unit(T.ChunkS.mkchunk(s, T.NOATTS)))
+
+
+def _plain_result_ensures(a, r, s):
+    if z3.is_expr(s):
+        st = getattr(a, "final_state", None)
+        if st is not None:
+            st.add_index(z3.IntVal(0))          # the single run of the result
+        return [("post.one_unformatted_run", r == _one_plain_run(s))]
+    return [("post.one_unformatted_run", len(r.chunks) == 1 and r.chunks[0].s == s and dict(r.chunks[0].atts) == {})]
+
+
+from_str_callee = Contract(M + "FmtStr.from_str", "C17", ["s"], shapes=[],
+                           requires=lambda a: True if isinstance(a.s, str) and "\x1b[" not in a.s else PLAIN(_as_str_term(a.s)),
+                           result=lambda a, st: _fmtstr_result(NS_string(a.s), st),
+                           doc="callee form for strings free of ESC[; verified as FmtStr.from_str#plain")
+
+
+class NS_string:
+    def __init__(self, s):
+        self.string = s
+
+
+from_str_plain = Contract(
+    M + "FmtStr.from_str#plain", "C06", ["s"],
+    shapes=[Shape("plain", dict(s=StrT(plain=True)))],
+    requires=lambda a: (PLAIN(a.s) == Not(z3.Contains(a.s, ESC_CSI))) if z3.is_expr(a.s) else ("\x1b[" not in a.s),
+    ensures=lambda a, r: _plain_result_ensures(a, r, a.s), result=FmtT())
+
+
+class EmptyKwargsT(ConstT):
+    """**kwargs of a call without keyword arguments: a fresh empty dict"""
+    def __init__(self):
+        super().__init__(None)
+
+    def fresh(self, name, st):
+        from pyvc.values import DictV
+        return st.alloc(DictV({}))
+
+    def concretize(self, value, model, cx):
+        return {}
+
+
+fmtstr_plain_body = Contract(
+    M + "fmtstr#plain", "C06", ["string", "*args", "**kwargs"],
+    shapes=[Shape("plain_str_no_formatting", dict(string=StrT(plain=True), args=ConstT(()), kwargs=EmptyKwargsT()))],
+    ensures=lambda a, r: _plain_result_ensures(a, r, a.string), result=FmtT())
+fmtstr_plain_body.inline = {"parse_args": "formatstring:parse_args"}
 
 # ---------------------------------------------------------------------------------------------
 # FmtStr.__len__ / s as callees (functional results); their own bodies are verified in the memo
